@@ -9,6 +9,17 @@ claimed = {
    text="Every public call of every real run (all six protocols, all strategies incl. flipped broadcast flags) is logged with round number, WaitingFor set, emitted messages with routing and fan-out, result count, wire round-trip and secret-scan booleans; TLC must explain each line by the Engine action and the post-state must be equal; WaitingExact is evaluated after every delivery. The same properties are model-checked on the design.",
    note="round/routing tables in spec/Protocols.tla are the reference; secrets scanned are the byte encodings of long-term secrets >= 120 bits", ref="§4.1, §6 C08"),
 }
+claimed.update({
+ "C01": dict(cat="model_checking", tech="scenario space + Engine_Trace.tla validation of real signing runs; independent ECDSA verify/recover oracle; SigningAlgebra.tla exhaustive over a toy field",
+   text="Real ECDSA signing sessions over keys from real keygens for (n,t), signer subsets (incl. |S|>t+1, permuted ids), digest classes (0,1,q-1,leading zeros,random; >= q must be refused before any send), fullBytesLen, schedules; every finisher's output judged by an independent verifier and public-key recovery written in the harness (byte equality across signers, low-S, widths, R||S, echoed message); each run trace-validated against the engine spec; the signing algebra (Lagrange re-weighting of every subset, s = k(m + r x), low-S, offset) is model-checked by TLC for all polynomials of a toy field.",
+   note="independent secp256k1 arithmetic (self-checked against published vectors); toy-field algebra says nothing about the 256-bit code by itself - the binding is the oracle on real outputs", ref="§6 C01, §4.7"),
+ "C02": dict(cat="model_checking", tech="scenario space + Engine_Trace.tla validation of real signing runs; crypto/ed25519 (stdlib) as independent verifier; SigningAlgebra.tla (EddsaCorrect)",
+   text="Real EdDSA signing sessions over freshly generated keys for several (n,t), subsets, message classes (empty-ish, short, 32 bytes, long, leading zeros with/without fullBytesLen) and schedules; the 64-byte signature of every finisher must be identical and verify with the Go standard library Ed25519 verifier over the echoed message under the RFC 8032 encoding of the group key; runs trace-validated; algebra model-checked over a toy field.",
+   note="crypto/ed25519 is independent of the agl/dcrd code the library signs with", ref="§6 C02"),
+ "C03": dict(cat="model_checking", tech="real keygens judged by independent curve arithmetic (polynomial-in-the-exponent, subset interpolation, sum of first commitments read off the wire) + Engine_Trace.tla + KeygenAlgebra.tla exhaustive over toy fields",
+   text="Real EdDSA and ECDSA key generations for all 1<=t<n (EdDSA to n=4 quick / 6 thorough, ECDSA to n=3 quick / 5 thorough), party id classes (small, random 256-bit, just below the order, above the order) and schedules; public views compared across parties, Xi*G = BigXj[i], all share points on one degree-t polynomial, every (t+1)-subset interpolates to the key, key = sum of the first Feldman commitments seen on the wire, Paillier private/public consistency; traces validated; KeygenAlgebra.tla checks the same predicates for all dealer polynomials of toy fields.",
+   note="ECDSA pre-parameters are the five vendored sets; safe-prime generation is C19's subject", ref="§6 C03, §4.7"),
+})
 not_yet = {}
 props = [json.loads(l) for l in open('/verif/properties.jsonl')]
 extra = json.load(open('/verif/manifest_extra.json')) if __import__('os').path.exists('/verif/manifest_extra.json') else {}
